@@ -837,6 +837,32 @@ class Reader:
         raise Unsupported('assignment through %s at %s' % (pp(lhs), lhs.get('loc')))
 
     def call(self, e, st, ctx):
+        # Eigen comma initialiser used as a statement: `M << a, b, ...;` stores the coefficients into M (a fixed-size member or local): the value is kept as Matrix(a, b, ...), the same
+        # uninterpreted constructor a `Matrix(a, b)` expression denotes
+        if e.get('k') == 'Op' and e.get('op') == ',' and len(e.get('args', [])) == 2:
+            items, n_ = [], e
+            while isinstance(n_, dict) and n_.get('k') == 'Op' and n_.get('op') == ',' and len(n_.get('args', [])) == 2:
+                items.append(n_['args'][1])
+                n_ = strip_casts(n_['args'][0])
+            if isinstance(n_, dict) and n_.get('k') == 'Op' and n_.get('op') == '<<' and len(n_.get('args', [])) == 2:
+                import re as _re
+                lhs = n_['args'][0]
+                mm_ = _re.search(r'Eigen::Matrix<[a-z ]+, (\d+), (\d+)', (strip_casts(lhs).get('t') or {}).get('s', ''))
+                items.append(n_['args'][1])
+                items.reverse()
+                lv = self.lvalue(lhs, st, ctx) if mm_ else None
+                if mm_ and int(mm_.group(1)) * int(mm_.group(2)) == len(items) and lv and lv[0] in ('field', 'local') and self.call_hook is not None:
+                    out = []
+                    for (vals, s2) in self.evs(items, st, ctx):
+                        if all(isinstance(v_, sp.Basic) for v_ in vals):
+                            val = sp.Function('Matrix')(*vals)
+                            self.assign(lv, val, s2)
+                            out.append((val, s2))
+                        else:
+                            out = None
+                            break
+                    if out:
+                        return out
         # call of a local closure: inline its body with the parameters bound (captures are the enclosing locals themselves; depth-limited like any call)
         if e.get('k') == 'Op' and e.get('op') == '()' and e.get('args'):
             o_ = strip_casts(e['args'][0])
